@@ -15,14 +15,14 @@ RULE = ('configurations built from a random binding set (literal value trees inc
         '(b) identical text for every permutation; (c) parameters sorted inside sections, sections non-decreasing in the case-folded innermost name; '
         '(d) markdown() keeps every binding line verbatim. distinct = (value-kind set, name features, width class, import forms)')
 TIERS = {
-    'quick': {'workers': 8, 'cases': 350, 'timeout': 600},
+    'quick': {'workers': 8, 'cases': 700, 'timeout': 600},
     'thorough': {'workers': 16, 'cases': 9000, 'timeout': 3000},
 }
 REQUIRED_BUCKETS = ['value:long-string', 'value:nested', 'value:reference', 'value:macro-ref', 'value:nonliteral-object', 'value:nonliteral-set', 'value:nan-inf',
                     'value:repr-looks-like-reference', 'value:repr-unbalanced', 'value:repr-looks-like-string', 'value:complex', 'macro:literal', 'macro:nonliteral',
                     'name:module-qualified-needed', 'name:method', 'name:case-variant-scope', 'name:case-variant-configurable', 'name:case-variant-macro',
                     'width:tiny', 'width:indent0', 'width:default', 'imports:present', 'imports:from', 'imports:alias', 'perm:3+', 'roundtrip:done',
-                    'omitted:nonrepresentable', 'api:bind_parameter', 'api:text']
+                    'omitted:nonrepresentable', 'api:bind_parameter', 'api:text', 'registration:dynamic']
 ORACLE_COUNTERS = ['oracle_evals', 'roundtrips', 'permutations_compared', 'markdown_checked']
 _S = {}
 HDR = re.compile(r'^# Parameters for (.+):$')
@@ -100,7 +100,17 @@ def gen_val(rng):
 
 
 def iter_cases(ctx, rng, n):
+  from vf.checks import c19
+  dyn = c19.iter_cases(ctx, rng, n)
   for i in range(n):
+    if i % 8 == 7:
+      # "with or without dynamic registration": a dynamic-registration configuration on a freshly generated package (machinery of C19):
+      # config_str must re-parse to the same deliveries and reproduce the text
+      c = next(dyn)
+      while c['kind'] != 'bindings':
+        c = next(dyn)
+      yield {'dynamic': c}
+      continue
     nb = rng.choice([1, 2, 3, 5, 8, 12])
     binds = {}
     for _ in range(nb):
@@ -234,6 +244,15 @@ def apply_items(gin, case, order, use_text, cache):
 def run_case(ctx, case):
   import gin
   from gin import config as gc
+  if 'dynamic' in case:
+    from vf.checks import c19
+    if 'tree' not in c19._S:
+      c19.setup(ctx)
+    ctx.bucket('registration:dynamic')
+    before = dict(ctx.params)
+    ctx.params.setdefault('fresh_process_every', 10 ** 9)
+    c19.run_bindings(ctx, case['dynamic'])
+    return
   mll, ci = case['mll'], case['ci']
   cache = {}
   feats = set()
@@ -396,6 +415,12 @@ def run_case(ctx, case):
     ctx.check(False, key, 'serialising again after the round trip differs:\n%s\n---\n%s' % (s[:800], s2[:800]))
   else:
     ctx.count('oracle_evals')
+
+
+def finish(ctx):
+  from vf.checks import c19
+  if 'tree' in c19._S:
+    c19._S['tree'].cleanup()
 
 
 def strip_none_sections(text):
